@@ -61,6 +61,13 @@ package dsstate
 //@   ensures err != nil ==> dstore == old(dstore)
 //@   modifies dstore
 
+// the msgpack decoder decodes INTO its destination and reuses the byte slices it finds there: an entry
+// decodes to exactly what was encoded (and does not alias a value already handed to the datastore)
+// only if the destination starts as the zero value
+//@ extern codec.Decoder.Decode(v)
+//@   requires pointee_zero(v)
+//@   modifies *v
+
 // ---- C01/C14: "a peer that has caught up by installing a snapshot holds exactly the result" ----
 //@ func (st *State) Unmarshal
 //@   property C01 C14
